@@ -276,7 +276,12 @@ func main() {
 	seed := flag.Uint64("seed", 1, "")
 	tier := flag.String("tier", "quick", "")
 	replay := flag.String("replay", "", "")
+	chat := flag.String("chatter", "", "helper process mode: seed,lines,maxlen,finalnl")
 	flag.Parse()
+	if *chat != "" {
+		chatter(*chat)
+		return
+	}
 	defer func() {
 		keys := make([]string, 0, len(stats))
 		for k := range stats {
@@ -318,6 +323,10 @@ func main() {
 		return
 	}
 	r := &rng{s: *seed}
+	if *tier == "race" { // the binary was built with -race: only the streams with concurrency in them
+		evStreams(r, *tier)
+		return
+	}
 	lwStreams(r, *tier)
 	kindStream()
 	evStreams(r, *tier)
